@@ -73,6 +73,7 @@ OPS = {
     "SLOAD": 0x54, "SSTORE": 0x55, "JUMP": 0x56, "JUMPI": 0x57, "PC": 0x58, "MSIZE": 0x59, "GAS": 0x5a,
     "JUMPDEST": 0x5b, "CREATE": 0xf0, "CALL": 0xf1, "CALLCODE": 0xf2, "RETURN": 0xf3, "DELEGATECALL": 0xf4,
     "CREATE2": 0xf5, "STATICCALL": 0xfa, "REVERT": 0xfd, "INVALID": 0xfe, "SELFDESTRUCT": 0xff,
+    "LOG0": 0xa0, "LOG1": 0xa1, "LOG2": 0xa2, "LOG3": 0xa3, "LOG4": 0xa4,
 }
 # (pops, pushes)
 ARITY = {
